@@ -401,8 +401,19 @@ def run_shard(ctx):
         for s in ("", " ", alpha[:22], alpha[0] * 22, alpha[-1] * 22, alpha[0] * 21, alpha[0] * 23):
             ctx.evaluated()
             check_string(ctx, s, alpha, "fixed")
+    import logging
+    ak_log = logging.getLogger("ak")
+    if not ak_log.handlers:
+        ak_log.addHandler(logging.NullHandler())
+    ak_log.propagate = False
     for i in range(ctx.cases):
+        # every fourth case runs with the package's loggers switched to DEBUG (the messages go nowhere)
+        debug = i % 4 == 3
+        ak_log.setLevel(logging.DEBUG if debug else logging.WARNING)
+        if debug:
+            ctx.count("cases_with_debug_logging")
         one_case(ctx, ctx.rng(i), alpha, seen, i)
+    ak_log.setLevel(logging.WARNING)
     ctx.sample({"int": "57**21+1", "encoded": model_encode(57 ** 21 + 1, alpha)})
     ctx.sample({"rejected": model_encode(TOP, alpha), "why": "denotes 2**128"})
     ctx.count("distinct_encodings", len(seen))
